@@ -10,6 +10,7 @@ Leg C2S : every recorded result (also seeded random larger shapes: <= 6 elements
           by TLC against TraceAllocator.tla: L1 = the C02 clauses on the recorded matrices / assignments, L2 = equality
           with the transcription.
 """
+import json
 import os
 import random
 
@@ -28,7 +29,7 @@ def alloc_item(tid, objs, origin, l2=True):
     except tlc.MachineryError:
         raise
     except Exception as ex:  # pylint: disable=broad-except
-        it["crash"] = "%s: %s" % (type(ex).__name__, ex)
+        it["crash"] = str(ex) if isinstance(ex, rs.ObservedCrash) else "%s: %s" % (type(ex).__name__, ex)
     return it
 
 
@@ -39,7 +40,7 @@ def assign_item(tid, hosts, n, l2=True):
     except tlc.MachineryError:
         raise
     except Exception as ex:  # pylint: disable=broad-except
-        it["crash"] = "%s: %s" % (type(ex).__name__, ex)
+        it["crash"] = str(ex) if isinstance(ex, rs.ObservedCrash) else "%s: %s" % (type(ex).__name__, ex)
     return it
 
 
@@ -58,7 +59,12 @@ def filtered_item(tid, s, rnd):
         mode, chosen = "include", rnd.sample(allnames, rnd.randint(1, len(allnames)))
     filters = [{"k": "name", "v": n} for n in chosen]
     objs = rs.build_schedule(s)
-    post = rs.run_filter([objs], filters, mode)[0]
+    try:
+        post = rs.run_filter([objs], filters, mode)[0]
+    except tlc.MachineryError:
+        raise
+    except Exception:  # pylint: disable=broad-except
+        return None  # a failing filter is C11's business; there is no schedule to allocate
     return alloc_item(tid, post, {"src": "task-filter", "pre": s, "filters": filters, "mode": mode})
 
 
@@ -79,14 +85,33 @@ def random_items(seed, n_alloc, n_assign):
     for i in range(n_alloc):
         big = i % 4 == 0
         s = rs.random_schedule(rnd, max_elements=6, max_clients=64 if big else 12, max_par=4 if big else 3)
-        if i % 3 == 2 and s:
-            items.append(filtered_item("rf%d" % i, s, rnd))
+        it = filtered_item("rf%d" % i, s, rnd) if i % 3 == 2 and s else None
+        if it is not None:
+            items.append(it)
         else:
             items.append(alloc_item("ra%d" % i, rs.build_schedule(s, rnd), {"src": "direct"}))
     for i in range(n_assign):
         hosts = [{"host": "10.0.0.%d" % h, "cores": rnd.choice([1, 2, 3, 4, 8, 16, 32, 64])} for h in range(rnd.randint(1, 8))]
         items.append(assign_item("rw%d" % i, hosts, rnd.randint(1, 64)))
     return items
+
+
+# known-bad items appended to every validation run: guard against verdict lines getting lost
+_JP = lambda i: {"k": "jp", "id": i, "cby": [], "any": []}  # noqa: E731
+CANARIES = [
+    {
+        "id": "canary1",
+        "kind": "alloc",
+        "l2": False,
+        "s": [{"k": "task", "name": "a", "type": "x", "tags": [], "clients": 2, "cp": False, "acp": False}],
+        "m": [[_JP(0), {"k": "task", "task": "a", "idx": 0, "gidx": 0, "total": 2}, _JP(1)], [_JP(0), {"k": "none"}, _JP(1)]],
+        "jps": [_JP(0), _JP(1)],
+        "tpj": [],
+        "clients": 2,
+        "walk": "fail",
+    },
+    {"id": "canary2", "kind": "assign", "l2": False, "hosts": [{"host": "h", "cores": 2}], "n": 4, "a": [{"host": "h", "workers": [[0, 2, 1], []]}]},
+]
 
 
 def _case_of(it):
@@ -101,7 +126,13 @@ def validate(items, out, name="c02trace"):
     ok = [it for it in items if "crash" not in it]
     bad = [(it, ["NoResult"]) for it in crashed]
     index = {it["id"]: it for it in ok}
-    verdicts = tracecheck.validate("Allocator", "TraceAllocator", "TraceAllocator.cfg", [{k: v for k, v in it.items() if k not in ("origin", "progress")} for it in ok], name=name, chunk=6000, timeout=1500)
+    payload = [{k: v for k, v in it.items() if k not in ("origin", "progress")} for it in ok]
+    if any(len(it["id"]) > 12 for it in payload):
+        raise tlc.MachineryError("trace ids must stay short (TLC wraps long verdict lines)")
+    verdicts = tracecheck.validate("Allocator", "TraceAllocator", "TraceAllocator.cfg", payload + CANARIES, name=name, chunk=None, timeout=1500)
+    got = (sorted({c for _, cl in verdicts.l1.pop("canary1", []) for c in cl}), sorted({c for _, cl in verdicts.l1.pop("canary2", []) for c in cl}))
+    if got != (["DriverWalksEveryStep", "EntriesAreElements", "IndicesExactlyOnce", "OneEntryPerStep"], ["BalancedOnHost", "ContiguousRanges", "ExactPartition"]):
+        raise tlc.MachineryError("trace validation lost verdicts: the known-bad canary items were reported as %s" % (got,))
     if out is not None:
         out.traces_validated += verdicts.accepted(len(ok))
         for tid in verdicts.l2:
@@ -138,51 +169,58 @@ def run(ctx, out):
         raise tlc.MachineryError("self-test failed: schedules with an emptied parallel do not violate the property in the model")
     out.extra["model_selftest"] = "inputs with a parallel emptied by a filter (Allocator.pinned.cfg) violate PropertyHolds in the model (OneEntryPerStep), as expected"
 
-    # ---- S2C: every input state on the real code
+    # ---- S2C + C2S in batches: every input state on the real code; every step-th schedule also through the real task filter
     rnd = random.Random(ctx.seed + 2)
-    inputs = list(rs.dump_inputs(dump + ".dump" if os.path.exists(dump + ".dump") else dump))
+    inputs = rs.sorted_inputs(dump + ".dump" if os.path.exists(dump + ".dump") else dump)
     if 2 * len(inputs) != res.distinct:
         raise tlc.MachineryError("dump has %d input states, TLC reported %d states" % (len(inputs), res.distinct))
-    inputs.sort(key=repr)
-    items = []
-    schedules = []
-    for n, inp in enumerate(inputs):
-        if inp["kind"] == "alloc":
-            s = [dict(el) for el in inp["s"]]
-            objs = rs.build_schedule(s)
-            it = alloc_item("s%d" % n, objs, {"src": "direct"})
-            if it["s"] != s:
-                raise tlc.MachineryError("projection of the real objects differs from the schedule they were built from: %s vs %s" % (it["s"], s))
-            items.append(it)
-            schedules.append(s)
-            out.add_case(("alloc", s), nontrivial=len(s) > 1 or any(el["k"] == "par" for el in s))
-        else:
-            items.append(assign_item("s%d" % n, inp["hosts"], inp["n"]))
-            out.add_case(("assign", inp["hosts"], inp["n"]), nontrivial=sum(h["cores"] for h in inp["hosts"]) > 1)
-    out.exhaustive = True
-    out.note("leg S2C: %d TLC input states run on Allocator / calculate_worker_assignments" % len(items))
-    # ---- the same schedules after the real task filter ("elements left empty by filters")
-    nonempty = [s for s in schedules if s]
     step = 3 if ctx.quick else 4
-    filt = []
-    for n, s in enumerate(nonempty):
-        if n % step == ctx.seed % step:
-            filt.append(filtered_item("f%d" % n, s, rnd))
-    for it in filt:
-        out.add_case(("alloc-filtered", it["origin"]["pre"], it["origin"]["filters"], it["origin"]["mode"]))
-    out.extra["schedules_through_real_filter"] = len(filt)
-    out.extra["filtered_schedules_with_empty_parallel"] = sum(1 for it in filt if rs.has_empty_parallel(it["s"]))
+    n_filt = n_empty = n_sched = 0
+    batch = 40000
+    for b0 in range(0, len(inputs), batch):
+        items = []
+        for n in range(b0, min(b0 + batch, len(inputs))):
+            inp = json.loads(inputs[n])
+            if inp["kind"] == "alloc":
+                s = inp["s"]
+                it = alloc_item("s%d" % n, rs.build_schedule(s), {"src": "direct"})
+                if it["s"] != s:
+                    raise tlc.MachineryError("projection of the real objects differs from the schedule they were built from: %s vs %s" % (it["s"], s))
+                items.append(it)
+                out.add_case(("alloc", s), nontrivial=len(s) > 1 or any(el["k"] == "par" for el in s))
+                if s:
+                    n_sched += 1
+                    if n_sched % step == ctx.seed % step:
+                        # "elements left empty by filters": the schedule after the real TaskFilterTrackProcessor
+                        fit = filtered_item("f%d" % n, s, rnd)
+                        if fit is not None:
+                            items.append(fit)
+                            n_filt += 1
+                            n_empty += 1 if rs.has_empty_parallel(fit["s"]) else 0
+                            out.add_case(("alloc-filtered", s, fit["origin"]["filters"], fit["origin"]["mode"]))
+            else:
+                items.append(assign_item("s%d" % n, inp["hosts"], inp["n"]))
+                out.add_case(("assign", inp["hosts"], inp["n"]), nontrivial=sum(h["cores"] for h in inp["hosts"]) > 1)
+        if b0 == 0:
+            direct = [it for it in items if it["origin"]["src"] == "direct" and "crash" not in it and it["kind"] == "alloc" and len(it["s"]) == 2]
+            mid = direct[len(direct) // 3] if direct else items[0]
+            out.sample({k: mid[k] for k in mid if k in ("kind", "s", "m", "tpj", "hosts", "n", "a")})
+        _report(validate(items, out), out)
+    out.exhaustive = True
+    out.note("leg S2C: %d TLC input states run on Allocator / calculate_worker_assignments, %d schedules also through the real task filter" % (len(inputs), n_filt))
+    out.extra["schedules_through_real_filter"] = n_filt
+    out.extra["filtered_schedules_with_empty_parallel"] = n_empty
     # ---- seeded random larger shapes
     rnd_items = random_items(ctx.seed + 202, 240 if ctx.quick else 3000, 300 if ctx.quick else 4000)
     for it in rnd_items:
         out.add_case(_case_of(it))
-    mid = items[len(items) // 3]
-    out.sample({k: mid[k] for k in mid if k in ("kind", "s", "m", "tpj", "hosts", "n", "a")})
     big = max((it for it in rnd_items if it["kind"] == "alloc" and "crash" not in it), key=lambda it: len(it["s"]))
     out.sample({"kind": "alloc", "s": big["s"], "clients": big["clients"], "tpj": big["tpj"], "steps": len(big["jps"]) - 1})
-    # ---- C2S
-    allitems = items + filt + rnd_items
-    for it, clauses in validate(allitems, out):
+    _report(validate(rnd_items, out), out)
+
+
+def _report(bad, out):
+    for it, clauses in bad:
         detail = "crash=%s" % it["crash"] if "crash" in it else ""
         if it["kind"] == "alloc":
             detail += " schedule=%s steps=%s progress_entries=%s driver_walk=%s" % (it["s"], len(it.get("jps", [])) - 1, len(it.get("tpj", [])), it.get("progress"))
